@@ -4,7 +4,7 @@
    Conventions: [payload] of seal is the Vec returned by V::nonce() with the encoded claims appended;
    [enc] is Payload::SUFFIX; results are Ok bytes / Err kind / Panic site as in the Rust. *)
 From Coq Require Import List NArith String Bool.
-From PV Require Import Bytes Result Pae Ctr Oracle.
+From PV Require Import Bytes Result Rs Pae Ctr Oracle.
 Import ListNotations.
 Local Open Scope string_scope.
 Local Open Scope list_scope.
@@ -65,16 +65,18 @@ Section WithOracle.
     let c := xorl m (aes_ctr ctr_w_awslc ek n2 (length m)) in
     Ok (nonce ++ c ++ hmac384 O ak (v3_pre enc nonce c f a)).
 
+  (* `if len < 80 { return Err(InvalidToken) }`, then `payload.split_at_mut(len - 48)` and
+     `ciphertext.split_at_mut(32)`: both splits PANIC when out of range (Rs.v); that the guard excludes it is
+     proved (lc_unseal_inst, lc_local_unseal_no_panic), not assumed *)
   Definition lc_local_unseal (key enc payload f a : bytes) : result bytes :=
     if Nat.ltb (length payload) 80 then Err InvalidToken else
-    let rest := take (length payload - 48) payload in
-    let tag := drop (length payload - 48) payload in
-    let nonce := take 32 rest in
-    let c := drop 32 rest in
+    rs_sub (length payload) 48 "paseto-v3-aws-lc/local.rs unseal: len - 48" (fun mid =>
+    rs_split_at mid payload "paseto-v3-aws-lc/local.rs unseal: split_at_mut(len - 48)" (fun rest tag =>
+    rs_split_at 32 rest "paseto-v3-aws-lc/local.rs unseal: split_at_mut(32)" (fun nonce c =>
     let '(ek, n2, ak) := lc_keys key nonce in
     if beq (hmac384 O ak (v3_pre enc nonce c f a)) tag
     then Ok (xorl c (aes_ctr ctr_w_awslc ek n2 (length c)))
-    else Err CryptoError.
+    else Err CryptoError))).
 
   (* ------------------------------------------------------------------ v1 *)
   Definition v1_keys (key nonce : bytes) : bytes * bytes * bytes :=
